@@ -343,7 +343,7 @@ def near_inputs(rnd, kl, base_ml=24):
 def gen_scripts(tr, rnd):
     S = []
     thorough = tr == "thorough"
-    reps = 4 if thorough else 1
+    reps = 10 if thorough else 1
     keygrid = [0, 1, 16, 20, 32, 63, 64, 65, 80]
     msggrid = [0, 1, 19, 20, 21, 55, 56, 64, 100, 200]
     for dig in DIGESTS:
@@ -428,7 +428,7 @@ MC_INVS = ["PrfDefined", "PrfPrefix", "PrfNeedIsGraph", "PrfNeedsAll", "PrfFirst
 
 
 def model(tr):
-    consts = "KeyLens = {0, 1, 3}\nMsgLens = {0, 1, 2, 5}\n" if tr == "thorough" else "KeyLens = {0, 2}\nMsgLens = {0, 1, 3}\n"
+    consts = "KeyLens = {0, 1, 3, 20}\nMsgLens = {0, 1, 2, 5, 40}\n" if tr == "thorough" else "KeyLens = {0, 2}\nMsgLens = {0, 1, 3}\n"
     cfg = "CONSTANTS " + consts + "SPECIFICATION Spec\n" + "".join("INVARIANT %s\n" % i for i in MC_INVS) + "CHECK_DEADLOCK FALSE\n"
     r = run_tlc("MC_PHash", cfg, workers=4, heap="3g", timeout=900, env={"JAVA_TOOL_OPTIONS": "-Xss16m"})
     if not r.distinct or r.distinct < 100:
